@@ -257,6 +257,9 @@ def pipeline_section(ctx):
       ctx.nontriv(('pipeline', ctx.traces))
     if rec['altered']:
       fl = fl | {'forward-altered'}
+    if rec.get('dup_bad'):
+      ctx.violation('a datapoint that arrives twice in one pickle frame (two equal samples) was not aggregated / forwarded twice', rec['text'],
+                    signature='duplicate-suppressed')
     for f in sorted(fl):
       if aggd and f == 'delivered':
         ctx.violation(WHAT['forward'] + ' [observed at the end of the daemon\'s pipeline]', rec['text'], signature='forward')
